@@ -115,3 +115,30 @@ func init() {
 	}
 	properties["C05"] = &propSpec{ID: "C05", Quick: tierSpec{Harnesses: hs(0)}, Thorough: tierSpec{Harnesses: hs(1)}}
 }
+
+func init() {
+	properties["C06"] = &propSpec{ID: "C06",
+		Quick: tierSpec{Harnesses: []harnessSpec{
+			{Func: gp + "internal/zzverif.VC06", Discover: 2, Reach: []string{"c06.accepted"}},
+			{Func: gp + "internal/zzverif.VC06Lit", Discover: 1, Reach: []string{"c06l.accepted"}},
+		}},
+		Thorough: tierSpec{Harnesses: []harnessSpec{
+			{Func: gp + "internal/zzverif.VC06", Discover: 2, Reach: []string{"c06.accepted"}},
+			{Func: gp + "internal/zzverif.VC06Lit", Discover: 1, Params: map[string]int{"alldigits": 1}, Reach: []string{"c06l.accepted"}},
+		}},
+	}
+}
+
+func init() {
+	properties["C11"] = &propSpec{ID: "C11",
+		Quick:    tierSpec{Harnesses: []harnessSpec{{Func: gp + "internal/zzverif.VC11", Discover: 2, Reach: []string{"c11.accepted"}}}},
+		Thorough: tierSpec{Harnesses: []harnessSpec{{Func: gp + "internal/zzverif.VC11", Discover: 2, Reach: []string{"c11.accepted"}}}},
+	}
+}
+
+func init() {
+	properties["C10"] = &propSpec{ID: "C10",
+		Quick:    tierSpec{Harnesses: []harnessSpec{{Func: gp + "internal/zzverif.VC10", Discover: 2, Digits: 5, Reach: []string{"c10.accepted"}}}},
+		Thorough: tierSpec{Harnesses: []harnessSpec{{Func: gp + "internal/zzverif.VC10", Discover: 2, MapPerms: true, Reach: []string{"c10.accepted"}}}},
+	}
+}
